@@ -274,23 +274,8 @@ static size_t scratch_for(Ctx &c, int fr, const std::vector<uint8_t> &input, boo
   }
 }
 
-static void run(Ctx &c) {
-  uint8_t sel = c.u8();
-  if (sel == 0xff) {  // enumerated: string over the boundary alphabet x decoder x schedule {whole, byte-wise, two cuts}
-    int fr = c.pick(NFraming);
-    int mode = c.pick(3);
-    size_t n = c.pick(7);
-    std::vector<uint8_t> in;
-    for (size_t i = 0; i < n; i++) in.push_back(kAlpha[c.pick(sizeof kAlpha)]);
-    size_t prefix = fr == FCommand ? 2 : (fr >= FZpe ? 2 * n + 16 : 16);
-    std::vector<size_t> cuts;
-    if (mode == 2) { cuts.push_back(prefix + n / 3); cuts.push_back(prefix + (2 * n) / 3); }
-    drive(c, fr, in, prefix, false, mode == 2 ? 1 : 0, cuts, mode == 1 ? 1 : 0);
-    c.nontrivial();
-    return;
-  }
-  int fr = sel % NFraming;
-  c.label(kName[fr]);
+// input bytes: raw | boundary alphabet | reference-encoded frames with mutations
+static std::vector<uint8_t> gen_input(Ctx &c, int fr) {
   std::vector<uint8_t> in;
   switch (c.weighted({3, 2, 5})) {
     case 0: {  // raw bytes
@@ -327,6 +312,148 @@ static void run(Ctx &c) {
       }
       break; }
   }
+  return in;
+}
+
+// ---- queue level: the same decoders behind mpt_queue_recv / mpt_queue_peek / mpt_queue_shift (anchors of C03)
+struct DQ {
+  CObj<decode_queue> q;
+  ~DQ() { free(q->base); }
+};
+
+static void run_queue(Ctx &c, int fr) {
+  data_decoder_t dec = mpt_message_decoder(kEncoding[fr]);
+  VP_CHECK(c, dec, "no-decoder", "no decoder for %s", kName[fr]);
+  std::vector<uint8_t> input = gen_input(c, fr);
+  Expect e = ref_expect(fr, input);
+  DQ d;
+  decode_queue *q = d.q;
+  q->_dec = dec;
+  q->_state.data.msg = -1;
+  c.label("scenario:queue");
+  c.logf("queue level: decoder=%s expect %zu message(s)%s", kName[fr], e.msgs.size(), e.then_malformed ? " then a malformed frame" : "");
+  c.loghex("input", input.data(), input.size());
+  size_t sent = 0, delivered = 0, delims_in = 0, next_frame = 0;
+  bool dead = false;
+  int first_error = 0;
+  size_t budget = 10 * input.size() + 80, quiet = 0, mb_retries = 0;
+  bool budget_hit = false;
+  auto deliver = [&](size_t k) {
+    if (k > input.size() - sent) k = input.size() - sent;
+    if (!k) return;
+    size_t left = mpt_queue_prepare(q, k);
+    VP_CHECK(c, left >= k, "prepare-refused", "mpt_queue_prepare(%zu) returned %zu", k, left);
+    int r = mpt_qpush(q, k, input.data() + sent);
+    VP_CHECK(c, r >= 0, "qpush-refused", "mpt_qpush(%zu) = %d after prepare", k, r);
+    for (size_t i = 0; i < k; i++) if (!input[sent + i]) ++delims_in;
+    sent += k;
+    c.logf("  deliver %zu byte(s), %zu of %zu in", k, sent, input.size());
+  };
+  auto read_pending = [&](std::vector<uint8_t> &got) {
+    message m;
+    struct iovec vec;
+    memset(&m, 0, sizeof m);
+    int g = mpt_message_get(q, q->_state.data.pos, q->_state.data.msg, &m, &vec);
+    VP_CHECK(c, g >= 0, "message-get", "%s: mpt_message_get(pos %zu, len %zd) = %d on a queue of %zu bytes", kName[fr], q->_state.data.pos, (ssize_t)q->_state.data.msg, g, q->len);
+    got.resize(q->_state.data.msg);
+    size_t n = mpt_message_read(&m, got.size(), got.data());
+    VP_CHECK(c, n == got.size(), "message-get", "%s: message of %zu bytes reads %zu", kName[fr], got.size(), n);
+  };
+  auto recv = [&]() -> int {
+    size_t before = q->len;
+    int r = mpt_queue_recv(q);
+    c.logf("  mpt_queue_recv = %d (queue %zu/%zu, curr %zu pos %zu len %zu msg %zd)", r, q->len, q->max, q->_state.curr, q->_state.data.pos, q->_state.data.len, (ssize_t)q->_state.data.msg);
+    VP_CHECK(c, q->len <= q->max && (q->off < q->max || !q->max), "queue-invariant", "%s: len %zu max %zu off %zu after recv", kName[fr], q->len, q->max, q->off);
+    if (r == 1) {
+      VP_CHECK(c, q->_state.data.msg >= 0 && q->_state.data.pos + (size_t)q->_state.data.msg <= q->len, "window-outside-consumed", "%s: message window %zu+%zd outside the %zu queued bytes",
+               kName[fr], q->_state.data.pos, (ssize_t)q->_state.data.msg, q->len);
+      std::vector<uint8_t> got;
+      read_pending(got);
+      if (!dead) {
+        ++delivered;
+        VP_CHECK(c, delivered <= delims_in, "more-messages-than-delimiters", "%s: %zu messages from %zu delimiters", kName[fr], delivered, delims_in);
+        VP_CHECK(c, delivered <= e.msgs.size(), "message-from-malformed-frame", "%s: message #%zu (%zu bytes %s) delivered but the reference accepts only %zu frame(s)%s", kName[fr],
+                 delivered, got.size(), hex(got.data(), got.size(), 24).c_str(), e.msgs.size(), e.then_malformed ? " before a malformed one" : "");
+        const auto &want = e.msgs[delivered - 1];
+        VP_CHECK(c, got == want, "message-differs-from-reference", "%s: message #%zu is %zu bytes %s, reference says %zu bytes %s", kName[fr], delivered, got.size(),
+                 hex(got.data(), got.size(), 32).c_str(), want.size(), hex(want.data(), want.size(), 32).c_str());
+      } else {
+        bool found = false;
+        while (next_frame < e.all.size()) {
+          const auto &f = e.all[next_frame++];
+          if (f.first && f.second == got) { found = true; break; }
+        }
+        VP_CHECK(c, found, "message-after-error", "%s: after error %d the queue delivers %zu bytes %s, which is no reference message of a later frame of this input", kName[fr], first_error,
+                 got.size(), hex(got.data(), got.size(), 24).c_str());
+        c.label("resync-after-error");
+      }
+      quiet = 0;
+      return r;
+    }
+    if (r == 0) VP_CHECK(c, q->_state.data.msg < 0, "pending-message-without-delivery", "%s: mpt_queue_recv returns 0 but a message of %zd bytes is marked pending", kName[fr], (ssize_t)q->_state.data.msg);
+    if (r == MissingBuffer) {
+      // decoder needs work area: production (stream dispatch) enlarges a full queue and tries again
+      c.label("recv:MissingBuffer");
+      if (++mb_retries <= input.size() + 8) { size_t left = mpt_queue_prepare(q, 64); VP_CHECK(c, left >= 64, "prepare-refused", "mpt_queue_prepare(64) returned %zu", left); }
+      return r;
+    }
+    if (r < 0 && !(r == MissingData && !before)) {
+      if (!dead) { dead = true; first_error = r; next_frame = delivered + 1; c.label(r == BadValue ? "recv:BadValue" : r == MissingData ? "recv:MissingData" : "recv:other-error"); }
+    }
+    return r;
+  };
+  while (true) {
+    if (!budget--) { budget_hit = true; break; }
+    switch (c.weighted({5, 6, 2})) {
+      case 0: deliver(c.flip() ? 1 : c.range(1, 40)); break;
+      case 1: recv(); break;
+      default: {
+        uint8_t buf[64];
+        ssize_t p = mpt_queue_peek(q, c.range(0, sizeof buf), buf);
+        c.logf("  mpt_queue_peek = %zd (curr %zu pos %zu len %zu)", p, q->_state.curr, q->_state.data.pos, q->_state.data.len);
+        c.label("op:peek");
+        break; }
+    }
+    if (sent >= input.size() && !c.more()) break;
+  }
+  if (budget_hit) { c.label("harness-budget-hit"); return; }
+  // drain: everything delivered, receive until the queue stays quiet
+  deliver(input.size());
+  size_t rounds = 0;
+  while (quiet < 3 && rounds++ < 4 * input.size() + 64) {
+    int r = recv();
+    if (r == 1) continue;
+    if (r == MissingBuffer && mb_retries <= input.size() + 8) continue;
+    ++quiet;
+  }
+  if (!dead && mb_retries <= input.size() + 8)
+    VP_CHECK(c, delivered == e.msgs.size() || e.then_malformed, "well-formed-frame-not-delivered", "%s: all %zu bytes are in the queue, %zu of %zu well-formed frames delivered, mpt_queue_recv keeps returning 0",
+             kName[fr], input.size(), delivered, e.msgs.size());
+  if (dead && first_error != MissingBuffer)
+    VP_CHECK(c, delivered == e.msgs.size() && (e.then_malformed || fr == FCommand), "error-on-well-formed-frame", "%s: error %d after %zu of %zu well-formed frames%s", kName[fr], first_error, delivered,
+             e.msgs.size(), e.then_malformed ? "" : " and no malformed frame in the input");
+  if (delivered >= 2 || (delivered && dead)) c.nontrivial();
+}
+
+static void run(Ctx &c) {
+  uint8_t sel = c.u8();
+  if (sel == 0xff) {  // enumerated: string over the boundary alphabet x decoder x schedule {whole, byte-wise, two cuts}
+    int fr = c.pick(NFraming);
+    int mode = c.pick(3);
+    size_t n = c.pick(7);
+    std::vector<uint8_t> in;
+    for (size_t i = 0; i < n; i++) in.push_back(kAlpha[c.pick(sizeof kAlpha)]);
+    size_t prefix = fr == FCommand ? 2 : (fr >= FZpe ? 2 * n + 16 : 16);
+    std::vector<size_t> cuts;
+    if (mode == 2) { cuts.push_back(prefix + n / 3); cuts.push_back(prefix + (2 * n) / 3); }
+    drive(c, fr, in, prefix, false, mode == 2 ? 1 : 0, cuts, mode == 1 ? 1 : 0);
+    c.nontrivial();
+    return;
+  }
+  int fr = sel % NFraming;
+  c.label(kName[fr]);
+  if (sel >= 0xe0 && sel < 0xff) { run_queue(c, fr); return; }  // one case in eight: the queue level
+  std::vector<uint8_t> in = gen_input(c, fr);
   bool sufficient = false;
   size_t prefix = scratch_for(c, fr, in, sufficient);
   int segmode = c.flip();
